@@ -453,7 +453,7 @@ fn dispatch(rep: &mut Report, ty: &str, f: &dyn Fn(&mut Report, &str)) {
 }
 
 pub fn run(tier: Tier, rep: &mut Report) -> (String, String) {
-    let maxlen = tier.pick(24, 48, if miri_deep() { 3 } else { 2 });
+    let maxlen = tier.pick(32, 64, if miri_deep() { 3 } else { 2 });
     let r = par_each(TYPES, n_threads(tier), |ty, r| {
         dispatch(r, ty, &|r, ty| match ty {
             "u8" => run_type::<u8>(r, maxlen),
